@@ -146,7 +146,7 @@ def c05_prepare(engine, tier, seed, a, cov):
             continue
         lst, n = enum05.expand(combos[r['idx']], r['obs'])
         c = combos[r['idx']]
-        points[f'{c["kind"]}/{"forced" if c["forced"] else "first"}/{c["shape"]}'] = n
+        points[f'{c["kind"]}/{"forced" if c["forced"] else "first"}/{c["shape"]}' if c.get('mode') != 'delete' else f'{c["kind"]}/delete_data'] = n
         scns += lst
     engine.explicit = scns
     cov['enumeration'] = {'combos': len(combos), 'mutating_fs_operations_per_request': points, 'scenarios': len(scns),
